@@ -338,7 +338,12 @@ func buildInbound() core.BuildFunc {
 				}
 				gap := time.Duration(1+t.Choose("scn", 5)) * time.Millisecond
 				p := txPlan{Kind: "valid", H: hd, Body: body, Valid: true, Gap: gap}
-				switch t.Weighted("scn", 12, 2, 1, 1, 1, 1, 1, 1, 1, 1, 1) {
+				switch t.Weighted("scn", 12, 2, 1, 1, 1, 1, 1, 1, 1, 1, 1, 2) {
+				case 11: // a stray block 0 without the E-bit, same message header, INSERTED before this block
+					sh := hd
+					sh.Num, sh.E = 0, false
+					sb := []byte{byte(mi), 0xEE}
+					h.plan = append(h.plan, txPlan{Kind: "stray-block-0-without-E", H: sh, Body: sb, Valid: true, Gap: gap, Raw: refe4.Wire(sh, sb)})
 				case 1: // retransmitted duplicate (as if our ACK had been lost)
 					p.Raw = refe4.Wire(hd, body)
 					h.plan = append(h.plan, p)
